@@ -234,7 +234,7 @@ def run(ctx):
 
     # ---- 3. record the real coders
     jobs = [(exetu, ["laplace"], "t_laplace.ndjson"), (exetu, ["icdf"], "t_icdf.ndjson"),
-            (exe, ["lapgrid", c["grid"][0], c["grid"][1]], "t_lapgrid.ndjson"),
+            (exe, ["lapgrid", c["grid"][0], c["grid"][1]], "t_lapgrid.ndjson"), (exe, ["lapp0"], "t_lapp0.ndjson"),
             (exe, ["small", c["small_vex"], c["small_n"]], "t_small.ndjson")]
     jobs += [(exe, ["pvq", seed, c["pvq_vex"], c["pvq_strat"], i, c["pvq_parts"]], "t_pvq%d.ndjson" % i) for i in range(c["pvq_parts"])]
     jobs += [(exe, ["sweep", c["sweep_vmax"], i, c["sweep_parts"]], "t_sweep%d.ndjson" % i) for i in range(c["sweep_parts"])]
@@ -262,7 +262,7 @@ def run(ctx):
             m = re.search(r'"cnt":(\d+)', ln)
             swept += int(m.group(1)) if m else 0
             ctx.nontrivial.add(hash(ln[:40]))
-        elif k == "lap":
+        elif k in ("lap", "lapp0"):
             ctx.nontrivial.add(hash(ln[:40]))
         elif k in ("icdf", "icdfrt"):
             m = re.search(r'"t":\[([^\]]*)\]', ln)
@@ -271,7 +271,7 @@ def run(ctx):
         elif k in ("utab", "cache", "eprob"):
             ctx.nontrivial.add(hash(ln[:200]))
     # vacuity guards: every kind of record is present in the expected number
-    want = {"pvq": 1000, "pvqw": 20, "sweep": 50, "lap": len(pairs), "icdfrt": kinds["icdf"], "icdf": kinds["icdf"],
+    want = {"pvq": 1000, "pvqw": 20, "sweep": 50, "lap": len(pairs), "lapp0": 130, "icdfrt": kinds["icdf"], "icdf": kinds["icdf"],
             "eprob": 8, "utab": 1, "cache": 1, "reach": 1, "vnk": len(reach) - 20}
     if not crashes:
         for k, least in want.items():
